@@ -572,7 +572,6 @@ func (vfs *OrefaFS) Open(name string) (avfs.File, error) {
 func (vfs *OrefaFS) OpenFile(name string, flag int, perm fs.FileMode) (avfs.File, error) {
 	const op = "open"
 
-	at := int64(0)
 	om := avfs.ToOpenMode(flag)
 
 	absPath, _ := vfs.Abs(name)
@@ -625,10 +624,6 @@ func (vfs *OrefaFS) OpenFile(name string, flag int, perm fs.FileMode) (avfs.File
 				child.truncate(0)
 				child.mu.Unlock()
 			}
-
-			if om&avfs.OpenAppend != 0 {
-				at = child.Size()
-			}
 		}
 	}
 
@@ -637,7 +632,6 @@ func (vfs *OrefaFS) OpenFile(name string, flag int, perm fs.FileMode) (avfs.File
 		nd:       child,
 		openMode: om,
 		name:     name,
-		at:       at,
 	}
 
 	return f, nil
